@@ -191,7 +191,7 @@ pub fn run_c05(ctx: &Ctx) {
     run_l2_part(ctx, "l2", Prop::C05, P_C05, ctx.tier.scale(200_000, 10),
         &[("pause", 0.4), ("inject-fatal", 0.2), ("inject-per-connection", 0.2), ("uds", 0.4)],
         "the schedule contains a pause or an injected accept error (fatal or per-connection)");
-    run_l4_part(ctx, crate::l4::Prop::C05, crate::l4::gen::P { pause: 3, inject: 3, panic: 0, stop: 0, uds: true, max_limit: 4 }, ctx.tier.scale(200, 4), &[("pause", 0.4), ("inject", 0.4)], "the script contains a pause or an injected accept error (exercises the real poll_with loop, which the stepped driver duplicates)");
+    run_l4_part(ctx, crate::l4::Prop::C05, crate::l4::gen::P { pause: 3, inject: 3, panic: 0, stop: 0, uds: true, max_limit: 4 }, ctx.tier.scale(200, 4), &[("pause", 0.4), ("inject", 0.4), ("backoff-under-load", 0.15)], "the script contains a pause or an injected accept error (exercises the real poll_with loop, which the stepped driver duplicates)");
 }
 
 pub fn replay_c05(ctx: &Ctx, v: &Value) -> i32 {
